@@ -251,6 +251,9 @@ theorem compute_tot_aux (N : Nat) : ∀ node : Node, sizeOf node < N → NodeTot
     · -- if
       rename_i cond t f
       rw [desugar] at hd
+      by_cases hcv : changesVariable cond = true
+      · rw [if_pos hcv] at hd; cases hd
+      rw [if_neg hcv] at hd
       rw [namesOkA] at hn
       simp only [Bool.and_eq_true] at hn
       cases ha : desugarO t with
@@ -288,6 +291,9 @@ theorem compute_tot_aux (N : Nat) : ∀ node : Node, sizeOf node < N → NodeTot
     · -- while
       rename_i cond b
       rw [desugar] at hd
+      by_cases hcv : changesVariable cond = true
+      · rw [if_pos hcv] at hd; cases hd
+      rw [if_neg hcv] at hd
       rw [namesOkA] at hn
       cases hdb : desugar b with
       | none => simp [hdb] at hd
@@ -302,6 +308,9 @@ theorem compute_tot_aux (N : Nat) : ∀ node : Node, sizeOf node < N → NodeTot
     · -- do-while
       rename_i cond b
       rw [desugar] at hd
+      by_cases hcv : changesVariable cond = true
+      · rw [if_pos hcv] at hd; cases hd
+      rw [if_neg hcv] at hd
       rw [namesOkA] at hn
       cases hdb : desugar b with
       | none => simp [hdb] at hd
